@@ -330,6 +330,11 @@ def dim_rules(ck, F, E, maxel):
         ck.require(len(bads) >= 2 and "Ne" in cmp_ops or "Eq" in cmp_ops, "C16:DIM:arity-check", "INV-DIM",
                    "get_linear_index compares arity and returns BadSubscript",
                    "get_linear_index lost its arity check", gl.span)
+        # ... or validates all subscripts up front: `if zip(indices, dimensions).any(|(i, size)| i >= size) { return Err(..) }`
+        from lib import any_guard
+        for (sb_, none_arm, ops_, ac) in any_guard(F, gl):
+            if "Ge" in ops_ and "dimensions" in show(gl.expr(ac.args[0])):
+                cmp_ops.append("Ge")
         ck.require(any(o in ("Ge", "Lt") for o in cmp_ops), "C16:DIM:range-check", "INV-DIM",
                    "get_linear_index rejects index >= dimension",
                    "get_linear_index lost (or weakened) its `index >= dimension` check: %s" % cmp_ops, gl.span)
@@ -432,8 +437,11 @@ def typing_rules(ck, F, E):
     for body in F.bodies.values():
         if body.crate != "abasic_core":
             continue
-        for b, i, pl, rv, sp in aggregates(body, "arrays::ValueArray"):
-            sites.append((body, b, rv))
+        from lib import variant_sites, is_ctor_shim
+        if is_ctor_shim(body):
+            continue        # `ValueArray::String` used as a function: its users are the sites
+        for (b, var) in variant_sites(F, body, "arrays::ValueArray"):
+            sites.append((body, b, var))
     ck.require(bool(sites) and all(sfx(s[0].path, "ValueArray::create") for s in sites), "C16:TYPE:ValueArray-constructor",
                "suffix typing", "ValueArray variants are constructed only in ValueArray::create",
                "ValueArray is constructed in %s" % sorted({s[0].path for s in sites}))
@@ -448,8 +456,10 @@ def typing_rules(ck, F, E):
             if e[0] == "call" and e[1].endswith("ends_with") and any(
                     x[0] == "const" and x[1].get("int") == 36 for x in [strip_expr(a) for a in e[2]]):
                 ft = bool_switch_true_target(vc, b)
-                tv = {a[1] for a in region_aggregates(vc, exclusive_region(vc, ft[1])) if a[0].endswith("ValueArray")}
-                fv = {a[1] for a in region_aggregates(vc, exclusive_region(vc, ft[0])) if a[0].endswith("ValueArray")}
+                vs_ = variant_sites(F, vc, "arrays::ValueArray")
+                treg, freg = exclusive_region(vc, ft[1]), exclusive_region(vc, ft[0])
+                tv = {var for (bb_, var) in vs_ if bb_ in treg}
+                fv = {var for (bb_, var) in vs_ if bb_ in freg}
                 if tv == {"String"} and fv == {"Number"}:
                     ok = True
         ck.require(ok, "C16:TYPE:ValueArray-by-suffix", "suffix typing",
